@@ -106,10 +106,10 @@ func (obj *Mixture) GetParameters() Vector {
 
 func (obj *Mixture) SetParameters(parameters Vector) error {
   n := obj.Mixture.GetParameters().Dim()
-  obj.SetParameters(parameters.Slice(0,n))
   if err := obj.Mixture.SetParameters(parameters.Slice(0,n)); err != nil {
     return err
   }
+  parameters = parameters.Slice(n, parameters.Dim())
   if parameters.Dim() > 0 {
     for i := 0; i < obj.NComponents(); i++ {
       n := obj.Edist[i].GetParameters().Dim()
